@@ -52,7 +52,7 @@ func checkC27(c *Ctx, r *Report) {
 	// --- R4: matcher
 	match := c.matcherFunc()
 	if match == nil {
-		r.undecided("R4", "matcher", "-", "no recursive func([]string, []string) bool found in package client")
+		r.undecided("R4", "matcher", "-", "no recursive (or level-by-level looping) func([]string, []string) bool found in package client")
 	} else {
 		r.fn(match)
 		for mask := 0; mask < 32; mask++ {
@@ -68,16 +68,68 @@ func checkC27(c *Ctx, r *Report) {
 				continue
 			}
 			route, topic := match.Params[0], match.Params[1]
+			hdr, phiR, phiT := matcherLoop(match)
+			// "the current route / topic": the parameter, or (iterative form) the loop-carried slice
+			isCur := func(v ssa.Value, p *ssa.Parameter) bool {
+				if v == ssa.Value(p) {
+					return true
+				}
+				if p == route && phiR != nil && v == ssa.Value(phiR) {
+					return true
+				}
+				if p == topic && phiT != nil && v == ssa.Value(phiT) {
+					return true
+				}
+				return false
+			}
 			e := &explorer{c: c, MaxDepth: 1}
 			e.Inline = func(*ssa.Function) bool { return false }
 			oob := ""
+			if hdr != nil {
+				// one iteration: re-entering the header over the back edge is "continue with both tails" when both
+				// loop-carried slices are re-sliced [1:]
+				e.BlockHook = func(b, prev *ssa.BasicBlock, st *pstate, fr *frame) ([]aval, bool) {
+					if b != hdr || prev == nil || !hdr.Dominates(prev) {
+						return nil, false
+					}
+					okTails := true
+					for pi, pb := range hdr.Preds {
+						if pb != prev {
+							continue
+						}
+						for _, ph := range []*ssa.Phi{phiR, phiT} {
+							sl, ok := ph.Edges[pi].(*ssa.Slice)
+							if !ok || sl.X != ssa.Value(ph) || sl.High != nil {
+								okTails = false
+								continue
+							}
+							if lo, ok := constInt(sl.Low); !ok || lo != 1 {
+								okTails = false
+							}
+							l := lr
+							if ph == phiT {
+								l = lt
+							}
+							if l == 0 {
+								oob = "continues with [1:] of an empty slice (panics)"
+							}
+						}
+					}
+					if okTails {
+						st.events = append(st.events, "recurse(tails)")
+						return []aval{kstr("REC")}, true
+					}
+					st.events = append(st.events, "recurse(other)")
+					return []aval{kstr("REC?")}, true
+				}
+			}
 			isElem0 := func(v ssa.Value, p *ssa.Parameter) bool {
 				u, ok := v.(*ssa.UnOp)
 				if !ok || u.Op != token.MUL {
 					return false
 				}
 				ia, ok := u.X.(*ssa.IndexAddr)
-				if !ok || ia.X != ssa.Value(p) {
+				if !ok || !isCur(ia.X, p) {
 					return false
 				}
 				k, ok := constInt(ia.Index)
@@ -87,10 +139,10 @@ func checkC27(c *Ctx, r *Report) {
 				switch x := v.(type) {
 				case *ssa.Call:
 					if b, ok := x.Call.Value.(*ssa.Builtin); ok && b.Name() == "len" {
-						if x.Call.Args[0] == ssa.Value(route) {
+						if isCur(x.Call.Args[0], route) {
 							return kint(lr), true
 						}
-						if x.Call.Args[0] == ssa.Value(topic) {
+						if isCur(x.Call.Args[0], topic) {
 							return kint(lt), true
 						}
 					}
@@ -244,8 +296,41 @@ func (c *Ctx) matcherFunc() *ssa.Function {
 		if rec {
 			return f
 		}
+		// iterative form: a loop whose header carries both slices and whose back edge re-slices them
+		if hdr, _, _ := matcherLoop(f); hdr != nil {
+			return f
+		}
 	}
 	return nil
+}
+
+// matcherLoop: the loop header of an iterative matcher and the phis that carry the current route and topic
+// (phi(param, <something>) in one block, one per parameter).
+func matcherLoop(f *ssa.Function) (*ssa.BasicBlock, *ssa.Phi, *ssa.Phi) {
+	if len(f.Params) != 2 {
+		return nil, nil, nil
+	}
+	for _, b := range f.Blocks {
+		var pr, pt *ssa.Phi
+		for _, in := range b.Instrs {
+			ph, ok := in.(*ssa.Phi)
+			if !ok {
+				break
+			}
+			for _, e := range ph.Edges {
+				if e == ssa.Value(f.Params[0]) {
+					pr = ph
+				}
+				if e == ssa.Value(f.Params[1]) {
+					pt = ph
+				}
+			}
+		}
+		if pr != nil && pt != nil && inCycle(b) {
+			return b, pr, pt
+		}
+	}
+	return nil, nil, nil
 }
 
 func (c *Ctx) checkDispatchGate(r *Report, match *ssa.Function) {
